@@ -227,3 +227,31 @@ PROPS["C06"] = dict(
         "own-evidence plans that contain a refutation are only checked up to it (the silent subject is suspected again by the node itself)",
     ],
 )
+
+PROPS["C08"] = dict(
+    title="Graceful leave is final; a member's name and address cannot be hijacked",
+    pkg="./props/c08",
+    level="exploration",
+    rule=("peer role: one real node holding a subject alive/suspect/dead/left (incarnation 1-3), DeadNodeReclaimTime 0/2s/1h; 1-8 steps of leave messages "
+          "(incarnation held-1..held+3), alive claims from the same address, another IP or another port (incarnation held-1..held+2), third-party dead/suspect, "
+          "sleeps 1ms-5s, over single/compound/compressed packets and push/pull rows (join or not). Determinate outcomes are asserted from the dump before/after: "
+          "a leave at incarnation >= held for an alive/suspect record gives left (not dead) and exactly one leave event; an alive no newer than the recorded "
+          "departure/death from the same address changes nothing; an alive from a different address never changes the address of an alive, suspect or "
+          "recently-dead record (conflict callback with existing/other for newer claims); after a leave (immediately) or a death older than a positive reclaim "
+          "time the claim is adopted (alive at the new address, one join event). Leaver role: the real node with 0-3 live peers, UpdateNode broadcasts pending, "
+          "accusations (suspect/dead/alive about itself) before, at the very virtual instant of (0-4 packets, offsets 0/+-1us/20us) and after Leave, repeated Leave: "
+          "every nil return implies own record left and, with a live peer in view, a self-signed dead sent to a live peer before the return; afterwards the node "
+          "never lists itself again. non-trivial = determinate peer-role case / a Leave racing accusations or an accusation after Leave"),
+    tests=[
+        dict(name="peer", run="^TestLeaveFinalAndHijack$",
+             quick=dict(shards=10, checks=120, timeout=600),
+             thorough=dict(shards=10, checks=4000, timeout=3000)),
+        dict(name="leaver", run="^TestLeaver$",
+             quick=dict(shards=6, checks=1200, timeout=600),
+             thorough=dict(shards=6, checks=60000, timeout=3000)),
+    ],
+    assumptions=PUPPET_ASSUMPTIONS + [
+        "the Leave race is sampled by releasing the call and the accusations at the same virtual instant; which goroutine wins is up to the Go scheduler",
+        "ages of deaths are only used when unambiguous (100ms away from the reclaim boundary and caused by an injected claim)",
+    ],
+)
